@@ -893,7 +893,7 @@ class SoftwareSwitchBase (object):
       vl.eth_type = packet.type
       packet.payload = vl
       packet.type = ethernet.VLAN_TYPE
-    packet.payload.pcp = action.vlan_pcp
+    packet.payload.pcp = action.vlan_pcp & 0x7 # Only the lower 3 bits have meaning
     return packet
   def _action_strip_vlan (self, action, packet, in_port):
     if isinstance(packet.payload, vlan):
